@@ -167,11 +167,13 @@ dropped silently. -/
 /-- **Delivery**: in every step of the composed world whose effects were processed completely, the
 supervision events arriving at other actors' ports are exactly the events the target emitted in that
 step (to targets that have a cell): the same events, in emission order, each exactly once, and
-nobody else receives anything; routing the effects emits no further event. -/
-theorem emitted_is_delivered (w : World) (op : Op) (hd : w.stepDone op = true) :
+nobody else receives anything; routing the effects emits no further event. (`noSpawn`: no callback of
+the step spawned a child — then the set of actors that have a cell is the same before and after.) -/
+theorem emitted_is_delivered (w : World) (op : Op) (hd : w.stepDone op = true)
+    (hns : noSpawn (w.step op).2.1) :
     arrivalsOf (w.step op).2.2 = deliverable (w.step op).1 (emitsOf (w.step op).2.1) ∧
     emitsOf (w.step op).2.2 = [] :=
-  step_delivery w op hd
+  step_delivery w op hd hns
 
 /-- An event handed to a live supervisor (ports open) is in its supervision queue afterwards, behind
 what was already queued; C03 (`pick_supervision`, `priority`) then has it handled before any message. -/
@@ -269,6 +271,32 @@ example : Life.C04.ok 1 [.supIs (some 0), .exit .handle (.err 3), .monFan [2] [2
 example : Life.C04.ok 1 [.stopRet false .none true, .enter .postStop .none, .exit .postStop .ok,
     .monFan [2] [2] (.terminated 1 true .none)] = false := by decide
 
+/-! ### Round 4: children spawned from inside a callback
+
+`Fx.spawnChild c` = the callback calls `ActorRuntime::spawn_linked_instant(None, child, args, myself)`
+(the instant form: nothing is awaited inside the callback). The parent's own state does not change (the
+link is made by the child's start task); the composed world gives the child a `cell` that asks for the
+parent as supervisor, and from then on the child is an ordinary instant spawn — all theorems above apply to
+it and to the parent (both are single-actor runs, `world_actor_run`). -/
+
+/-- What the side effect does to the parent: nothing but the trace event and the routing effect. -/
+theorem callback_spawn_parent_unchanged (a : Actor) (c : Nat) :
+    (runFx a (.spawnChild c)).1 = a ∧
+    (runFx a (.spawnChild c)).2 = [.ev (.fxSpawn c a.isLocal), .eff (.spawnChild c a.isLocal)] := ⟨rfl, rfl⟩
+
+/-- Non-vacuity (composed world): actor 1 (child of 0) spawns actor 2 from its message handler and fails
+in the same segment. The child's cell exists (`Unstarted`); its start task runs `pre_start` and then finds the supervisor gone:
+`Err(nolink)` through the start handle, no supervision event for it, and actor 1's failure went to 0. -/
+def sWorld : World := (({} : World).run
+  [.spawn 0 none none false, .resume 0 ⟨[], .ok⟩, .pollSpawn 0, .spawn 1 (some 0) none false,
+   .resume 1 ⟨[], .ok⟩, .pollSpawn 1, .poll 1, .resume 1 ⟨[], .ok⟩, .send 1 5, .poll 1,
+   .resume 1 ⟨[.spawnChild 2], .err 3⟩, .poll 1]).1
+
+example : (sWorld.get 2).phase = .cell ∧ (sWorld.get 2).status = .unstarted ∧ (sWorld.get 2).wantSup = some 1 := by decide
+example : (sWorld.get 0).supQ = [.started 1, .failed 1 false 3] := by decide
+example : ((sWorld.run [.pollSpawn 2, .resume 2 ⟨[], .ok⟩, .pollSpawn 2]).2.filter
+    (fun o => o.1 = 2 ∧ o.2 = .ev (.spawnRet .nolink))).length = 1 := by decide
+
 /-! ### E-SRC obligations -/
 
 theorem src_cleanup_order : Extracted.cleanupOrder = Life.cleanupSteps := by decide
@@ -350,6 +378,7 @@ end C04
 #print axioms C04.unrelated_untouched
 #print axioms C04.monitors_each_exactly_once
 #print axioms C04.monitor_set_ops
+#print axioms C04.callback_spawn_parent_unchanged
 #print axioms C04.src_cleanup_order
 #print axioms C04.src_terminate_condition
 #print axioms C04.src_status
